@@ -156,7 +156,8 @@ CliClose(c) ==
                  bq, b2p, bclosed, nclose, hops, phase, ready, seen, efd, wcall, wread, halted, out>>
 
 \* what a node says about the keys of a fragment
-ValsFor(kind, len) == [x \in 1..len |-> IF kind = "nil" \/ (kind = "mix" /\ x % 2 = 0) THEN "nil"
+ValsFor(kind, len) == [x \in 1..len |-> IF kind = "nil" \/ (kind = "mix" /\ x % 2 = 0) \/ (kind = "mixe" /\ x % 3 = 0) THEN "nil"
+                                        ELSE IF kind = "empty" \/ (kind = "mixe" /\ x % 3 = 2) THEN "empty"
                                         ELSE IF kind = "err" THEN "err" ELSE "val"]
 
 \* self-answered commands at the head of a node's queue (ASKING) are answered in order
@@ -177,7 +178,8 @@ BkAnswer(n, a) ==
          rest == AutoAnswer(Tail(bq[n]), <<>>)
      IN
      /\ (kind \in {"moved", "ask"}) => (to # n /\ h < MaxHops)
-     /\ CanonKinds => ((kind = "mix") => req.k = "mget") /\ ((kind = "nil") => req.k \in {"get", "mget", "del"})
+     /\ CanonKinds => ((kind \in {"mix", "mixe"}) => req.k = "mget") /\ ((kind = "nil") => req.k \in {"get", "mget", "del"})
+                       /\ ((kind = "empty") => req.k \in {"get", "mget"})
      /\ bq' = [bq EXCEPT ![n] = rest[1]]
      /\ b2p' = [b2p EXCEPT ![n] = Append(@, [fid |-> f, kind |-> kind, cls |-> cls, to |-> to, vals |-> vals, num |-> num]) \o rest[2]]
      /\ hops' = IF kind \in {"moved", "ask"} THEN (f :> (h + 1)) @@ hops ELSE hops
@@ -441,6 +443,7 @@ SReadFrag(h, n, f, a) ==
                                         loc == Cardinality({x \in 1..j : req.slots[x] = s})
                                         v == fg[g].ans.vals[loc]
                                     IN IF v = "val" THEN [c |-> f[1], i |-> f[2], j |-> j - 1, s |-> s, n |-> fg[g].ans.n, v |-> "val"]
+                                       ELSE IF v = "empty" THEN EmptyTok
                                        ELSE NilTok],
                                  Len(req.slots), "")]]
   ELSE IF ty = "del" THEN
@@ -459,6 +462,7 @@ SReadFrag(h, n, f, a) ==
                             !.rsp = IF isErr THEN errRep
                                     ELSE IF ty = "set" THEN Rep("ok", <<>>, 0, "")
                                     ELSE IF a.kind = "nil" THEN Rep("nil", <<>>, 0, "")
+                                    ELSE IF a.kind = "empty" THEN Rep("empty", <<>>, 0, "")
                                     ELSE Rep("val", <<[c |-> f[1], i |-> f[2], j |-> 0, s |-> f[3], n |-> a.n, v |-> "val"]>>, 0, "")]]
 
 CbServerReadOne(n) ==
